@@ -35,3 +35,91 @@ package ro
 //@   inv i == n
 //@   on next(ctx, value) when predicate_1(ctx, value, n) : emits Next(predicate_0(ctx, value, n), value) ; n' = n + 1
 //@   on next(ctx, value) when !predicate_1(ctx, value, n) : emits ; n' = n + 1
+
+// ---------------------------------------------------------------------------
+// operator_filter.go
+// ---------------------------------------------------------------------------
+
+//@ operator IgnoreElements
+//@   props C04
+//@   on next(ctx, value) : emits
+
+//@ operator SkipWhileIWithContext
+//@   props C04 C09
+//@   ghost n int = 0
+//@   inv i == n
+//@   on next(ctx, value) when !skipping : emits Next(ctx, value) ; n' = n + 1
+//@   on next(ctx, value) when skipping && predicate_1(ctx, value, n) : emits ; n' = n + 1
+//@   on next(ctx, value) when skipping && !predicate_1(ctx, value, n) : emits Next(predicate_0(ctx, value, n), value) ; n' = n + 1
+
+//@ operator TakeWhileIWithContext
+//@   props C04 C09 C14
+//@   ghost n int = 0
+//@   inv i == n && !skipping
+//@   on next(ctx, value) when predicate_1(ctx, value, n) : emits Next(predicate_0(ctx, value, n), value) ; n' = n + 1
+//@   on next(ctx, value) when !predicate_1(ctx, value, n) : emits Complete(predicate_0(ctx, value, n))
+//@   on error(ctx, err) : emits Error(ctx, err)
+//@   on complete(ctx) : emits Complete(ctx)
+
+//@ operator Head
+//@   props C04 C14
+//@   on next(ctx, value) : emits Next(ctx, value), Complete(ctx)
+//@   on complete(ctx) : emits Error(ctx, ErrHeadEmpty)
+
+//@ operator Tail
+//@   props C04 C09
+//@   ghost n int = 0
+//@   ghost lastCtx val = nil
+//@   ghost lastVal val = nil
+//@   inv n >= 0 && hasValue == (n > 0)
+//@   inv hasValue ==> last.A == lastCtx && last.B == lastVal
+//@   on next(ctx, value) : emits ; n' = n + 1 ; lastCtx' = ctx ; lastVal' = value
+//@   on complete(ctx) when n > 0 : emits Next(lastCtx, lastVal), Complete(ctx)
+//@   on complete(ctx) when n <= 0 : emits Error(ctx, ErrTailEmpty)
+
+//@ operator FirstIWithContext
+//@   props C04 C09 C14
+//@   ghost n int = 0
+//@   inv i == n
+//@   on next(ctx, value) when predicate_1(ctx, value, n) : emits Next(predicate_0(ctx, value, n), value), Complete(predicate_0(ctx, value, n))
+//@   on next(ctx, value) when !predicate_1(ctx, value, n) : emits ; n' = n + 1
+//@   on complete(ctx) : emits Error(ctx, ErrFirstEmpty)
+
+//@ operator LastIWithContext
+//@   props C04 C09
+//@   ghost n int = 0
+//@   ghost found bool = false
+//@   ghost lastCtx val = nil
+//@   ghost lastVal val = nil
+//@   inv i == n && hasValue == found
+//@   inv hasValue ==> last.A == lastCtx && last.B == lastVal
+//@   on next(ctx, value) when predicate_1(ctx, value, n) : emits ; n' = n + 1 ; found' = true ; lastCtx' = predicate_0(ctx, value, n) ; lastVal' = value
+//@   on next(ctx, value) when !predicate_1(ctx, value, n) : emits ; n' = n + 1
+//@   on complete(ctx) when found : emits Next(lastCtx, lastVal), Complete(lastCtx)
+//@   on complete(ctx) when !found : emits Error(ctx, ErrLastEmpty)
+
+//@ operator ElementAt
+//@   props C04 C14
+//@   requires nth >= 0
+//@   ghost n int = 0
+//@   inv count == n && n <= nth
+//@   on next(ctx, value) when n == nth : emits Next(ctx, value), Complete(ctx)
+//@   on next(ctx, value) when n != nth : emits ; n' = n + 1
+//@   on complete(ctx) : emits Error(ctx, ErrElementAtNotFound)
+
+//@ operator ElementAtOrDefault
+//@   props C04 C14
+//@   requires nth >= 0
+//@   ghost n int = 0
+//@   inv count == n && n <= nth
+//@   on next(ctx, value) when n == nth : emits Next(ctx, value), Complete(ctx)
+//@   on next(ctx, value) when n != nth : emits ; n' = n + 1
+//@   on complete(ctx) : emits Next(ctx, fallback), Complete(ctx)
+
+//@ operator SkipLast
+//@   props C04 C07
+//@   note safety contract only (circular buffer stays in bounds); the functional contract needs a sequence ghost
+//@   requires count >= 1
+//@   inv len(buffer) == count && 0 <= index && index < count && 0 <= size && size <= count
+//@   on next(ctx, value) when size < count : emits
+//@   on next(ctx, value) when size >= count : emits Next(_, _)
